@@ -228,7 +228,6 @@ theorem C18_reg_match_routes (r : Realm) (req : Nat) (details : Dict) (kw : Dict
   intro env caller creq opts args ckw rnd hm hb
   unfold syncCall
   simp only [hm, hb]
-  rfl
 
 /-! ## Subscriptions -/
 
